@@ -8,6 +8,7 @@ import Driver.OpsBasic
 import Driver.OpsCmd
 import Driver.OpsGuard
 import Driver.OpsGeom
+import Driver.OpsFar
 open Driver
 
 def opGrid (args : List String) : String :=
@@ -51,6 +52,7 @@ def dispatch (line : String) : String :=
   | "cmd" :: r => opCmd r
   | "guard" :: r => opGuard r
   | "geom" :: r => opGeom r
+  | "far" :: r => opFar r
   | _ => "bad-op"
 
 partial def loop (h : IO.FS.Stream) (out : IO.FS.Stream) : IO Unit := do
